@@ -44,6 +44,7 @@ let parse_op (f : string list) : sop =
   | ["QUIESCE"] -> SQuiesce
   | ["AWAKE"] -> SAwake
   | ["FAIR"] -> SFair
+  | ["LAG"; h; _] -> SLag (ns h)
   | _ -> failwith ("bad op " ^ String.concat " " f)
 
 let () =
@@ -73,6 +74,7 @@ let () =
           | LQuiesce q -> "QUIESCE q=" ^ b01 q
           | LAwake w -> "AWAKE woke=" ^ b01 w
           | LFair c -> "FAIR " ^ cls c
+          | LLag b -> "LAG behind=" ^ b01 b
           | LPlain -> name in
         Printf.printf "%s %d:%s\n" id i text) ops;
       let (c, same) = shard_end !s in
